@@ -226,6 +226,12 @@ def run(P, rep, tier):
                         'facts established in other functions, each confirmed by reading: ' + '; '.join('%s:%s %s (%s)' % (k[0], k[1], k[2], v) for k, v in sorted(ASSUMED.items()))]
     W = _world(P)
     engs = L.solve(W)
+    flags = L.derive_flag_kinds(W, engs)
+    if flags:
+        # a flag that is set only for validated kinds: the functions that test it are analysed again with that invariant
+        for (un, f), e in sorted(engs.items()):
+            if un != 'codegen.c' and any(n.kind == 'MemberExpr' and n.name in flags for n in e.fd.walk()):
+                engs[(un, f)] = L.Engine(W, W.units[un], f).run()
     pre = L.derive_entry_facts(W, engs, skip_units=('codegen.c',))
     rep.extra['end_marker_preconditions (each established by every caller)'] = {'%s:%s' % k: {'param#%d%s' % (i + 1, suf): sites for (i, suf), sites in sorted(v.items())} for k, v in sorted(pre.items())}
     rep.extra['derived_tables'] = {
@@ -233,6 +239,7 @@ def run(P, rep, tier):
         'nullable_results': sorted(f for f in W.nullable_rets if f in W.fn_unit),
         'constructor_kinds': {f: (k if isinstance(k, str) else 'param#%d' % (k[1] + 1)) for f, k in sorted(W.ret_kind.items())},
         'fixpoint_rounds': W.rounds,
+        'flags_set_only_for_validated_kinds': {'%s.%s' % k: {suf: sorted(K) for suf, K in v.items()} for k, v in sorted(W.flag_kinds.items())},
     }
     rel = typing_relation(W, engs)
     rep.extra['typing_relation_from_add_type'] = {k: {'nonnull': sorted(v[0]), 'kinds': {p: sorted(f[1]) for p, f in v[1].items()}} for k, v in sorted(rel.items())}
